@@ -98,4 +98,47 @@ theorem segment_term_lazy (o : RecOpt) (c : Corpus) (G : GoodCorpus c) (t : Term
   rw [hs, hb, hdf]
   exact drain_open_encode cfg o (by decide) (by decide) (by decide) bp4x_good _ tfs hv
 
+/-- with frequencies, the serialized term's postings bytes encode the docs with their term frequencies -/
+theorem serializeCalls_freqs (o : RecOpt) (ho : Postings.hasFreq o = true) (ps : List Posting) (h : TermOK ps) :
+    ValidList (ps.map (·.doc)) (ps.map (·.tf)) ∧
+      (serializeCalls o (ps.map (callOf o))).postings = encodeTerm cfg o (ps.map (·.doc)) (ps.map (·.tf)) := by
+  have hsorted : (ps.map (·.doc)).Pairwise (· < ·) := h.good.sorted
+  have hdocs : (ps.map (callOf o)).map (·.doc) = ps.map (·.doc) := by
+    simp only [List.map_map]; congr 1; funext p; cases o <;> rfl
+  have hbound : ∀ d ∈ ps.map (·.doc), d < 2 ^ 31 := by
+    intro d hd
+    obtain ⟨p, hp, rfl⟩ := List.mem_map.mp hd
+    exact Nat.lt_trans (h.below p hp) (by decide)
+  have hv2 : ValidList (ps.map (·.doc)) (ps.map (·.tf)) :=
+    ⟨hsorted, hbound, by simp, by
+      intro t ht; obtain ⟨p, hp, rfl⟩ := List.mem_map.mp ht; exact (h.good.tf p hp).2⟩
+  refine ⟨hv2, ?_⟩
+  simp only [serializeCalls, hdocs]
+  cases o with
+  | basic => simp [Postings.hasFreq] at ho
+  | freqs => congr 1; simp only [List.map_map]; congr 1
+  | positions => congr 1; simp only [List.map_map]; congr 1
+
+/-- … and the lazy cursor's frequency buffers drain to the term's frequencies -/
+theorem segment_term_lazy_tf (o : RecOpt) (ho : Postings.hasFreq o = true) (c : Corpus) (G : GoodCorpus c)
+    (t : Term) (ht : t ∈ termsOf Gen.Postings.POSITION_GAP c) :
+    ∃ r, (indexCorpus o c).table t = some r ∧
+      (BlockPostings.drain cfg ((serializeTerm o r).docFreq / cfg.B + 2)
+        (BlockPostings.open cfg o o (serializeTerm o r).docFreq (serializeTerm o r).postings)).2 =
+        (postingsOf Gen.Postings.POSITION_GAP c t).map (·.tf) := by
+  have hne : postingsOf Gen.Postings.POSITION_GAP c t ≠ [] :=
+    (postingsFrom_ne_nil_iff _ t c 0).mpr ((Invert.mem_termsOf _ c t).mp ht)
+  have hok := termOK_of_goodCorpus c G t
+  obtain ⟨r, h1, h2⟩ := calls_of_recorder o _ hne hok.good hok.bounded
+  refine ⟨r, by rw [indexCorpus_table, h1], ?_⟩
+  have hs : serializeTerm o r =
+      serializeCalls o ((postingsOf Gen.Postings.POSITION_GAP c t).map (callOf o)) := by
+    simp only [serializeTerm, h2]
+  obtain ⟨hv, hb⟩ := serializeCalls_freqs o ho _ hok
+  have hdf : (serializeCalls o ((postingsOf Gen.Postings.POSITION_GAP c t).map (callOf o))).docFreq =
+      ((postingsOf Gen.Postings.POSITION_GAP c t).map (·.doc)).length := by
+    simp [serializeCalls]
+  rw [hs, hb, hdf]
+  exact drain_open_encode_tfs cfg o ho (by decide) (by decide) (by decide) bp4x_good _ _ hv
+
 end TantivyModel.FieldSerializer
